@@ -255,6 +255,12 @@ func (c *compiler) compile(slice bigslice.Slice, part partitioner) (tasks []*Tas
 				Deps:   []TaskDep{{task, 0, false, ""}},
 				Pragma: task.Pragma,
 				Slices: task.Slices,
+				// The output of these tasks is read by a shuffle: it must be
+				// partitioned (and combined) for the consumer.
+				NumPartition: part.NumPartition(),
+				Partitioner:  part.Partitioner(),
+				Combiner:     part.Combiner,
+				CombineKey:   part.CombineKey,
 			}
 		}
 		return
